@@ -592,6 +592,44 @@ pub fn check_case(case: &Case17, legs: &[Leg], rep: &mut Report) {
             );
             continue;
         }
+        // Same third-party defect, other shape: with a read buffer that has
+        // fewer than 4 free bytes at the end of input, encoding_rs_io hands
+        // out only part of the LAST character of the transcoding, whatever
+        // it is. Recognised only for scripted readers with a tiny roll
+        // buffer, and only if the results are exactly those of the
+        // transcoding cut inside its final character.
+        if got != ref_log {
+            if let Leg::Reader { cap: Some(c), .. } = leg {
+                let last_len = std::str::from_utf8(&transcoded)
+                    .ok()
+                    .and_then(|t| t.chars().last())
+                    .map_or(0, |ch| ch.len_utf8());
+                if *c <= 64
+                    && last_len >= 2
+                    && (1..last_len).any(|k| {
+                        let o = run_leg(
+                            &matcher,
+                            &ref_cfg,
+                            &Leg::Slice,
+                            &transcoded[..transcoded.len() - k],
+                            None,
+                        );
+                        o.result.is_ok() && flatten(&o.log, case.cfg.term) == got
+                    })
+                {
+                    rep.violation(
+                        "C17:malformed-tail-replacement-char-lost-or-truncated",
+                        format!(
+                            "{}: leg {}: the last character of the transcoding is cut short (tiny read buffer)",
+                            kind,
+                            leg.name()
+                        ),
+                        || json!({"case": case.to_json(), "leg": leg.to_json()}),
+                    );
+                    continue;
+                }
+            }
+        }
         if got != ref_log {
             let i = got
                 .iter()
